@@ -154,6 +154,10 @@ def pcovr_covariance(
             vC, UC = np.linalg.eigh(X.T @ X)
 
             vC = np.flip(vC)
+            # eigenvalues of a rank-deficient covariance that should be zero come out as
+            # round-off of the size eps * largest eigenvalue: the threshold scales with
+            # the data (it is unchanged for data of scale <= 1)
+            rcond = rcond * max(1.0, vC[0])
             UC = np.flip(UC, axis=1)[:, vC > rcond]
             vC = np.sqrt(vC[vC > rcond])
 
@@ -166,6 +170,7 @@ def pcovr_covariance(
                 random_state=random_state,
             )
 
+            rcond = rcond * max(1.0, np.max(vC**2, initial=0.0))
             UC = UC.T[:, (vC**2) > rcond]
             vC = vC[(vC**2) > rcond]
 
